@@ -18,6 +18,8 @@ use cwe_checker_lib::pipeline::AnalysisResults;
 use std::collections::BTreeMap;
 
 const NSTATES: usize = 8;
+const GLOBAL_START: u64 = 0x400;
+const GLOBAL_END: u64 = 0x3000;
 
 pub struct Case {
     pub project: Project,
@@ -98,11 +100,31 @@ impl<'a, 'b> G<'a, 'b> {
         }
         for i in 0..n {
             let tid = instr_tid(base + i as u64, 0);
-            match self.t.below(20) {
+            match self.t.below(23) {
                 0 | 1 => {
                     let r = self.reg();
                     let c = self.small();
                     out.push(assign(tid, &r, econst(c, 8)));
+                }
+                20 => {
+                    // constants on both sides of the NULL range (joins of them give intervals that straddle it)
+                    let r = self.reg();
+                    let c = *self.t.choose(&[2000i128, -2000, 1500, -1500, 2048, -4096, 1024, -1024, 1023, -1023, 0x10000]);
+                    out.push(assign(tid, &r, econst(c, 8)));
+                    self.feat("constant-around-null-range");
+                }
+                21 | 22 => {
+                    // access through a register (absolute addresses computed earlier, possibly joined)
+                    let p = self.reg();
+                    let d = self.reg();
+                    let off = *self.t.choose(&[0i128, 0, 8, -8, 0x400]);
+                    let a = if off == 0 { evar(&p) } else { ebin(IntAdd, evar(&p), econst(off, 8)) };
+                    if self.t.flag() {
+                        out.push(load(tid, &d, a));
+                    } else {
+                        out.push(store(tid, a, evar(&d)));
+                    }
+                    self.feat("access-through-register");
                 }
                 2 => {
                     let d = self.reg();
@@ -293,7 +315,16 @@ pub fn decode(t: &mut Tape) -> Case {
         g.feat("structured-counting-loop");
     }
     let s = sub(sub_tid(sbase), "f", blocks);
-    let project = project(vec![s], vec![], vec![sub_tid(sbase)]);
+    let mut project = project(vec![s], vec![], vec![sub_tid(sbase)]);
+    // a writeable global segment at low addresses just above the NULL range: absolute accesses into it are
+    // valid (unknown content); every other absolute access is invalid for the analysis and aborts the concrete run
+    project.runtime_memory_image.memory_segments.push(cwe_checker_lib::utils::binary::MemorySegment {
+        bytes: vec![0u8; (GLOBAL_END - GLOBAL_START) as usize],
+        base_address: GLOBAL_START,
+        read_flag: true,
+        write_flag: true,
+        execute_flag: false,
+    });
     // initial states
     let mut states = vec![];
     for k in 0..NSTATES {
@@ -484,31 +515,66 @@ pub fn check_case(case: &Case, ctx: &mut Ctx) -> CaseResult {
         };
         let regs: Vec<Variable> = project.register_set.iter().cloned().collect();
         let mut stats = (0u64, 0u64, 0u64, stateless, 0usize, false, false);
-        // separated states first, aliasing states last
-        for (regvals, seed, aliasing) in case.states.iter() {
-            let mut st = State::new(*seed);
+        // one concrete run; returns (failure, arrivals, lenient, exact, visited blocks, looped, null-abort, blocks run)
+        let run_state = |regvals: &Vec<(String, u128, usize)>, seed: u64| {
+            let mut st = State::new(seed);
             st.null_guard = Some(1024);
+            // valid memory: the global segment, the stack area around the entry stack pointer, and a page
+            // around the entry value of each parameter register (pointer parameters)
+            let mut ranges: Vec<(u64, u64)> = vec![(GLOBAL_START, GLOBAL_END)];
+            for (n, v, _) in regvals {
+                let v = *v as u64;
+                if n == "RSP" {
+                    ranges.push((v.saturating_sub(1 << 20), v.saturating_add(1 << 20)));
+                } else if PARAM_REGS.contains(&n.as_str()) && v > (1 << 32) && v < (1 << 62) {
+                    ranges.push((v - 0x1000, v + 0x1000));
+                }
+            }
+            st.valid_ranges = Some(ranges);
             let mut entry = BTreeMap::new();
             for (n, v, w) in regvals {
                 st.set(n, *v, *w);
                 entry.insert(n.clone(), *v);
             }
-            let entry_mem = State::new(*seed);
+            let entry_mem = State::new(seed);
             let rho = Rho { sub_tid: &sub_tid, entry: &entry, entry_mem: &entry_mem, sp_name: "RSP" };
             let mut obs = Obs { pi: &pi, nodes: &nodes, regs: &regs, rho, failure: None, arrivals: 0, lenient: 0, exact: 0, visited: vec![] };
             let run = run_sub(s, &mut st, &regs, &Limits { max_events: 300, max_blocks: 80 }, &[], &mut obs);
-            stats.0 += obs.arrivals;
-            stats.1 += obs.lenient;
-            stats.2 += obs.exact;
-            stats.4 = stats.4.max(obs.visited.len());
-            if run.blocks.len() > obs.visited.len() {
+            let looped = run.blocks.len() > obs.visited.len();
+            let failure = obs.failure.take().map(|(sig, detail)| {
+                (sig, format!("{}\ninitial registers: {:x?}\nblocks run: {:?}", detail, regvals.iter().map(|(n, v, _)| (n.as_str(), *v)).collect::<Vec<_>>(), run.blocks.iter().take(30).collect::<Vec<_>>()))
+            });
+            (failure, obs.arrivals, obs.lenient, obs.exact, obs.visited.len(), looped, run.stop == Stop::NullAccess)
+        };
+        // separated states first, aliasing states last
+        for (regvals, seed, aliasing) in case.states.iter() {
+            let (failure, arrivals, lenient, exact, visited, looped, null_abort) = run_state(regvals, *seed);
+            stats.0 += arrivals;
+            stats.1 += lenient;
+            stats.2 += exact;
+            stats.4 = stats.4.max(visited);
+            if looped {
                 stats.5 = true; // some block executed more than once: a loop was taken
             }
-            if run.stop == Stop::NullAccess {
+            if null_abort {
                 stats.6 = true;
             }
-            if let Some((sig, detail)) = obs.failure {
-                return Err((sig, format!("{}\ninitial registers: {:x?}\nblocks run: {:?}", detail, regvals.iter().map(|(n, v, _)| (n.as_str(), *v)).collect::<Vec<_>>(), run.blocks.iter().take(30).collect::<Vec<_>>()), *aliasing));
+            if let Some((sig, detail)) = failure {
+                if *aliasing {
+                    // Does the failure disappear when the aliasing is removed (parameter registers replaced by
+                    // pairwise distant pointer-like values, everything else unchanged)? Only then it is attributed
+                    // to the analysis' documented assumption that different identifiers denote different values.
+                    let mut de = regvals.clone();
+                    for (i, (n, v, _)) in de.iter_mut().enumerate() {
+                        if PARAM_REGS.contains(&n.as_str()) {
+                            *v = ((0x10 + i as u128) << 40) + 0x5500;
+                        }
+                    }
+                    if let (Some((sig2, detail2)), ..) = run_state(&de, *seed) {
+                        return Err((sig2, format!("(found in an aliasing state; still fails with the aliasing removed)\n{}", detail2), false));
+                    }
+                }
+                return Err((sig, detail, *aliasing));
             }
         }
         Err(("stats".to_string(), format!("{} {} {} {} {} {} {}", stats.0, stats.1, stats.2, stats.3, stats.4, stats.5, stats.6), false))
